@@ -25,3 +25,5 @@ def run(F, rep):
     # the bucket id of a piece is the rank of min_rc of its minimizer when reverse-complement mode is on (MspIntervalP::bucket): the
     # canonical-form tables for every k-mer type usable as p-mer (odd P included)
     rep.run(common.run_kmer_lemmas, F, rep, {"canon"})
+    # the scanner takes its first p-mer of every window with get_kmer on the read, which may be a (reverse-complemented) view
+    rep.run(common.run_store_kmer_lemmas, F, rep, "C08.7")
